@@ -1,6 +1,204 @@
-(* Props/C07.v — placeholder while the proofs are being built *)
-From PV Require Import Gen.C07Tables Spec.C07Lists.
-Theorem C07_placeholder : DW_LLE_end_of_list = BinNums.Z0.
+(* Props/C07.v — property C07: location and range lists decode to exactly the encoded entries.
+   Only statements, closed by [exact]; proofs in Proofs/C07*.v.
+   Model: Model/C07Lists.v (transliteration of dwarf/locationlists.py, ranges.py, dwarf_util.py,
+   dwarfinfo.get_addr, die._translate_attr_value) instantiated in Model/C07Inst.v with the tables
+   regenerated from the live modules (Gen/C07Tables.v): LLE_TABLES / RLE_TABLES, gen_*_CU_header.
+   Spec: Spec/C07Lists.v, Spec/C07Sections.v (encoders over every free byte, meanings, wf as bool). *)
+From Coq Require Import String.
+From PV Require Import Base.Bytes Base.Outcome Base.Prim Base.Enum Spec.PrimSpec
+  Model.C07Kinds Model.C07Lists Model.C07Inst Gen.C07Tables Spec.C07Lists Spec.C07Sections
+  Proofs.C07V4 Proofs.C07V5 Proofs.C07Tables Proofs.C07Units Proofs.C07Top Proofs.C07Enum
+  Proofs.C07Classify.
+From Coq Require Import ZArith List Bool.
+Import ListNotations.
+Open Scope string_scope.
+Open Scope list_scope.
+Open Scope Z_scope.
+
+(* ================================================================== the code's data is the standard's *)
+Theorem C07_lle_enum_standard : forall e, In e gen_ENUM_DW_LLE <-> In e spec_ENUM_DW_LLE.
+Proof. exact lle_enum_standard. Qed.
+Print Assumptions C07_lle_enum_standard.
+
+Theorem C07_rle_enum_standard : forall e, In e gen_ENUM_DW_RLE <-> In e spec_ENUM_DW_RLE.
+Proof. exact rle_enum_standard. Qed.
+Print Assumptions C07_rle_enum_standard.
+
+(* operand kinds of every DW_LLE / DW_RLE kind: the Switch tables of the entry structs *)
+Theorem C07_lle_struct_standard : forall x,
+  assoc gen_lle_switch (lle_name x) = Some (op_kinds (lle_ops x)).
+Proof. exact lle_struct_standard. Qed.
+Print Assumptions C07_lle_struct_standard.
+
+Theorem C07_rle_struct_standard : forall x,
+  assoc gen_rle_switch (rle_name x) = Some (op_kinds (rle_ops x)).
+Proof. exact rle_struct_standard. Qed.
+Print Assumptions C07_rle_struct_standard.
+
+Theorem C07_unit_headers_standard :
+  gen_loclists_CU_header = spec_list_header /\ gen_rnglists_CU_header = spec_list_header.
+Proof. exact unit_headers_standard. Qed.
+Print Assumptions C07_unit_headers_standard.
+
+(* entry_translate implements the meaning of every kind: indexed addresses through the table,
+   start/length converted to [start, start+length) *)
+Theorem C07_lle_translate_standard : forall tbl addr,
+  (forall i, 0 <= i < zlen tbl -> addr i = Ok (addr_at tbl i)) ->
+  forall asz off len x, wf_lle asz (zlen tbl) x = true ->
+  translate_entry LLE_TABLES addr (lle_raw off len x) = Ok (lle_tup tbl off len x).
+Proof. exact lle_translate_standard. Qed.
+Print Assumptions C07_lle_translate_standard.
+
+Theorem C07_rle_translate_standard : forall tbl addr,
+  (forall i, 0 <= i < zlen tbl -> addr i = Ok (addr_at tbl i)) ->
+  forall asz off len x, wf_rle asz (zlen tbl) x = true ->
+  translate_entry RLE_TABLES addr (rle_raw off len x) = Ok (rle_tup tbl off len x).
+Proof. exact rle_translate_standard. Qed.
+Print Assumptions C07_rle_translate_standard.
+
+(* ================================================================== pre-v5 lists *)
+(* any list of base-selection and location entries (any expression length < 2^16), any address
+   size > 0, both byte orders, placed after any prefix and before any tail *)
+Theorem C07_v4_loc_roundtrip : forall S version l pre tail cu,
+  version < 5 -> (0 < s_asz S)%nat -> forallb (wf_v4loc (s_asz S)) l = true ->
+  get_location_list_at_offset LLE_TABLES S version
+    (pre ++ enc_v4loc_list (s_le S) (s_asz S) l ++ tail) (zlen pre) cu
+  = Ok (v4loc_meaning (s_le S) (s_asz S) (zlen pre) l).
+Proof. exact get_location_list_v4. Qed.
+Print Assumptions C07_v4_loc_roundtrip.
+
+Theorem C07_v4_rng_roundtrip : forall S version l pre tail cu,
+  version < 5 -> (0 < s_asz S)%nat -> forallb (wf_v4rng (s_asz S)) l = true ->
+  get_range_list_at_offset RLE_TABLES S version
+    (pre ++ enc_v4rng_list (s_le S) (s_asz S) l ++ tail) (zlen pre) cu
+  = Ok (v4rng_meaning (s_le S) (s_asz S) (zlen pre) l).
+Proof. exact get_range_list_v4. Qed.
+Print Assumptions C07_v4_rng_roundtrip.
+
+(* ================================================================== v5 lists *)
+(* every DW_LLE kind, every valid ULEB128 encoding of every operand, counted expressions of any
+   length; indexed kinds through the unit's address table in .debug_addr *)
+Theorem C07_v5_loc_roundtrip : forall S version l pre tail cu tbl,
+  5 <= version -> addr_table_at S cu tbl -> forallb (wf_lle (s_asz S) (zlen tbl)) l = true ->
+  get_location_list_at_offset LLE_TABLES S version
+    (pre ++ enc_lle_list (s_le S) (s_asz S) l ++ tail) (zlen pre) (Some cu)
+  = Ok (lle_meaning (s_le S) (s_asz S) tbl (zlen pre) l).
+Proof. exact get_location_list_v5. Qed.
+Print Assumptions C07_v5_loc_roundtrip.
+
+Theorem C07_v5_rng_roundtrip : forall S version l pre tail cu tbl,
+  5 <= version -> addr_table_at S cu tbl -> forallb (wf_rle (s_asz S) (zlen tbl)) l = true ->
+  get_range_list_at_offset RLE_TABLES S version
+    (pre ++ enc_rle_list (s_le S) (s_asz S) l ++ tail) (zlen pre) (Some cu)
+  = Ok (rle_meaning (s_le S) (s_asz S) tbl (zlen pre) l).
+Proof. exact get_range_list_v5. Qed.
+Print Assumptions C07_v5_rng_roundtrip.
+
+(* the untranslated view and its translation *)
+Theorem C07_v5_rng_raw_roundtrip : forall S l pre tail n,
+  forallb (wf_rle (s_asz S) n) l = true ->
+  get_range_list_at_offset_ex RLE_TABLES S (pre ++ enc_rle_list (s_le S) (s_asz S) l ++ tail) (zlen pre)
+  = Ok (rle_raw_meaning (s_le S) (s_asz S) (zlen pre) l).
+Proof. exact get_range_list_ex_valid. Qed.
+Print Assumptions C07_v5_rng_raw_roundtrip.
+
+Theorem C07_translate_v5_entry : forall S cu tbl off len x,
+  addr_table_at S cu tbl -> wf_rle (s_asz S) (zlen tbl) x = true ->
+  translate_entry RLE_TABLES (get_addr (s_le S) (s_addr S) (Some cu)) (rle_raw off len x)
+  = Ok (rle_tup tbl off len x).
+Proof. exact translate_v5_entry_valid. Qed.
+Print Assumptions C07_translate_v5_entry.
+
+(* ================================================================== indexed access *)
+(* entry i of the unit's address table is at DW_AT_addr_base + i * address_size *)
+Theorem C07_index_resolution : forall le asz tbl apre apost cu i,
+  cu_addr_base cu = Some (zlen apre) -> cu_asz cu = asz ->
+  wf_addr_table asz tbl = true -> 0 <= i < zlen tbl ->
+  get_addr le (Some (apre ++ enc_addr_table le asz tbl ++ apost)) (Some cu) i = Ok (addr_at tbl i).
+Proof. exact get_addr_valid. Qed.
+Print Assumptions C07_index_resolution.
+
+(* entry k of a unit block's offset table (8 | 4 bytes each) designates table + offsets[k] *)
+Theorem C07_by_offset_table : forall le u pre post cu k,
+  wf_unit u = true -> cu_is64 cu = ub_is64 u -> 0 <= k < ub_count u ->
+  resolve_via_offset_table le (pre ++ enc_unit le u ++ post) cu k (Some (unit_table_offset (zlen pre) u))
+  = Ok (unit_table_offset (zlen pre) u + nth (Z.to_nat k) (ub_offsets u) 0).
+Proof. exact resolve_via_offset_table_valid. Qed.
+Print Assumptions C07_by_offset_table.
+
+(* ================================================================== unit blocks *)
+(* a section that is a sequence of unit blocks (DWARF32 or DWARF64 each, offset_count >= 0):
+   iter_CUs reports every block, in order, with its header fields and offset table *)
+Theorem C07_unit_blocks_exact : forall le version us,
+  5 <= version -> forallb wf_unit us = true ->
+  iter_CUs gen_rnglists_CU_header le version (concat (map (enc_unit le) us)) = Ok (unit_headers 0 us)
+  /\ iter_CUs gen_loclists_CU_header le version (concat (map (enc_unit le) us)) = Ok (unit_headers 0 us).
+Proof.
+  intros le version us Hv Hwf. destruct unit_headers_standard as [-> ->].
+  split; exact (iter_CUs_valid le version us Hv Hwf).
+Qed.
+Print Assumptions C07_unit_blocks_exact.
+
+(* iter_CU_range_lists_ex (repaired): exactly the lists of the block, from the end of the offset
+   table to the end of the block, for every offset_count *)
+Theorem C07_unit_block_lists_exact : forall S u lists pre post,
+  wf_unit u = true -> ub_body u = rng_body (s_le S) (s_asz S) lists ->
+  forallb (rle_wf_list (s_asz S)) lists = true ->
+  iter_CU_range_lists_ex RLE_TABLES S (pre ++ enc_unit (s_le S) u ++ post) (unit_header (zlen pre) u)
+  = Ok (rng_lists_raw (s_le S) (s_asz S) (unit_body_offset (zlen pre) u) lists).
+Proof. exact iter_CU_range_lists_ex_valid. Qed.
+Print Assumptions C07_unit_block_lists_exact.
+
+(* ================================================================== enumeration *)
+(* the lists visited are the lists the DIEs reference, each once, in section order *)
+Theorem C07_range_enumeration_exact : forall T S version stream cus refs (ex : list ex_item),
+  range_refs S (5 <=? version) cus = Ok refs ->
+  incr (map ex_start ex) ->
+  (forall o cv, In (o, cv) refs ->
+     exists e, In e ex /\ ex_start e = o /\
+               get_range_list_at_offset T S version stream o (Some (cuinfo_of cv)) = Ok (snd e)) ->
+  iter_range_lists T S version stream cus = Ok (enum_expected (map fst refs) ex).
+Proof. exact iter_range_lists_exact. Qed.
+Print Assumptions C07_range_enumeration_exact.
+
+(* ================================================================== classification *)
+(* finite sweep: versions 2..5 x every name of ENUM_DW_AT x every name of ENUM_DW_FORM *)
+Theorem C07_classification : forall v n f c,
+  In v VERSIONS -> In n gen_DW_AT_names -> In f gen_DW_FORM_names ->
+  std_classify v n f = Some c ->
+  gen_classify v n f = lclass_code c /\ classify_attribute n f v = lclass_code c.
+Proof. exact classification_standard. Qed.
+Print Assumptions C07_classification.
+
+Theorem C07_classification_model_is_code : forall v n f,
+  In v VERSIONS -> In n gen_DW_AT_names -> In f gen_DW_FORM_names ->
+  classify_attribute n f v = gen_classify v n f.
+Proof. exact classification_model_is_code. Qed.
+Print Assumptions C07_classification_model_is_code.
+
+(* ================================================================== non-vacuity *)
+Example C07_ex_v4 :
+  forallb (wf_v4loc 4) [V4Base 0x1000; V4Loc 0 0x20 [0x50]; V4Loc 0xfffffffe 1 []] = true
+  /\ forallb (wf_v4rng 8) [R4Base (2 ^ 64 - 1); R4Range 1 0] = true.
+Proof. split; reflexivity. Qed.
+
+Example C07_ex_v5 :
+  forallb (wf_lle 8 2)
+    [LBaseAddressx (1, 2%nat); LStartxEndx (0, 0%nat) (1, 1%nat) (0%nat, [0x9c]);
+     LStartxLength (1, 0%nat) (300, 1%nat) (3%nat, []); LOffsetPair (2 ^ 70, 0%nat) (1, 0%nat) (0%nat, [1; 2; 3]);
+     LDefaultLocation (0%nat, [0x50]); LBaseAddress (2 ^ 64 - 1); LStartEnd 0 1 (0%nat, []);
+     LStartLength 7 (0, 4%nat) (0%nat, [0x91; 0x7f])] = true
+  /\ forallb (wf_rle 4 1)
+    [RBaseAddressx (0, 1%nat); RStartxEndx (0, 0%nat) (0, 0%nat); RStartxLength (0, 0%nat) (9, 0%nat);
+     ROffsetPair (1, 0%nat) (2, 2%nat); RBaseAddress 0xffffffff; RStartEnd 3 4; RStartLength 5 (6, 0%nat)] = true.
+Proof. split; reflexivity. Qed.
+
+Example C07_ex_units :
+  forallb wf_unit
+    [ {| ub_is64 := false; ub_version := 5; ub_asz := 8; ub_seg := 0; ub_offsets := []; ub_body := [0] |};
+      {| ub_is64 := true; ub_version := 5; ub_asz := 4; ub_seg := 0; ub_offsets := [16; 20];
+         ub_body := rng_body true 4 [[ROffsetPair (1, 0%nat) (2, 0%nat)]; []] |} ] = true.
 Proof. reflexivity. Qed.
-Print Assumptions C07_placeholder.
-Example C07_ex : True. Proof. exact I. Qed.
+
+Example C07_ex_classification : (300 <=? decided)%nat = true.
+Proof. exact decided_many. Qed.
